@@ -153,7 +153,7 @@ def run_property(prop, pid, tier, seed, args, t0):
     demoted_spec = getattr(prop, "DEMOTED", {})
     demoted = []
     for o, r in zip(obs, results):
-        if r["verdict"] not in ("proved", "ok", "ok-unknown", "vacuous", "refuted") and any(re.search(p_, o.name) for p_ in demoted_spec):
+        if r["verdict"] not in ("proved", "ok", "ok-unknown", "vacuous") and any(re.search(p_, o.name) for p_ in demoted_spec):
             # an obligation the verifier cannot decide on the unchanged tree: demoted to the bounded stand-in, listed, never counted
             demoted.append((o, r, next(v_ for p_, v_ in demoted_spec.items() if re.search(p_, o.name))))
             continue
